@@ -34,4 +34,14 @@ theorem name_positions_accept_every_keyword :
        ("parseTableExpression", "(p.currentIs(token.IDENT) || p.current.Token.IsKeyword()) && !p.isKeywordForClause() && !p.currentIs(token.FINAL) && !p.currentIs(token.SAMPLE)"),
        ("parseIdentifierName", generic)] := by decide +kernel
 
+/-- Every place in the parser where `AS` has just been consumed and the next token is tested for being a NAME (column alias of
+CASE / CAST / SUBSTRING / TRIM …, the replacement name of `* REPLACE (expr AS name)` and `COLUMNS(…) REPLACE`, the name of a
+`WITH expr AS name` element) uses the generic test, i.e. accepts every keyword. Before the repair of
+`SELECT CASE WHEN 1 THEN 2 END AS format` (alias silently dropped) three of these sites tested `token.IDENT` alone. -/
+theorem names_after_as_accept_every_keyword : afterAsConds.all (fun c => c.2 == generic) = true := by decide +kernel
+
+/-- non-vacuity: the inventory is not empty and contains the repaired sites -/
+example : afterAsConds.length ≥ 10 ∧ afterAsConds.any (fun c => c.1 == "parseCase") = true
+    ∧ afterAsConds.any (fun c => c.1 == "parseAsteriskReplace") = true := by decide +kernel
+
 end DC.Props.C17Sites
